@@ -36,7 +36,9 @@ META = {
             "permutation of the -j1 per-file blocks with the separator convention derived from the -j1 run, and whether "
             "the exit status agrees; --sort path with N threads must equal -j1 --sort path byte for byte on every repetition. "
             "Terminal outputs of ParPrint and of its mutants are fed to OutputTrace as synthetic traces and must be judged "
-            "exactly as ParPrint judges them.",
+            "exactly as ParPrint judges them. Delivery of stdout is varied as well: groups whose stdout is appended to a file "
+            "lying inside the searched tree (rg leaves that file alone, under every thread count), one run per group read by a "
+            "consumer that starts late, and a --files group of 6000 long-named files behind a slow reader.",
     "note": "Schedules of the real binary are sampled (OS scheduler perturbed by thread count, CPU affinity, file sizes and "
             "a sleeping preprocessor), not enumerated; exhaustive interleaving coverage exists only at design level. JSON: "
             "elapsed times are blanked and the trailing summary message is excluded. Files whose search fails are outside "
